@@ -83,18 +83,25 @@ theorem recFields_quiet (mark : T) : ∀ (fs : List T) (q : Path) (fi : Nat), st
     recFields mark (.fst 0 q) fi (eraseL ((markAt mark q).kids.drop fi)) fs = ⟨[], false⟩
   | [], q, fi, _ => by rw [recFields]
   | .many s md items :: r, q, fi, h => by
-    simp only [stillFs, Bool.and_eq_true, bne_iff_ne, ne_eq, beq_iff_eq] at h
-    obtain ⟨⟨⟨hmd, hlen⟩, hes⟩, hr⟩ := h
+    simp only [stillFs, Bool.and_eq_true, beq_iff_eq] at h
+    obtain ⟨⟨hlen, hes⟩, hr⟩ := h
     have ih := recFields_quiet mark r q (fi + 1) hr
     rw [recFields_cons, headD_eraseL_drop, tail_eraseL_drop, ih, ← markAt_snoc]
     have hres : fieldRes mark (.fst 0 q) fi (erase (markAt mark (q ++ [fi]))) (.many s md items) = ⟨[], false⟩ := by
-      by_cases h1 : md = 1
-      · subst h1
-        have := recSlice_quiet mark items q fi s 0 {} hes rfl rfl (by simp [hlen])
+      by_cases h2 : md = 2
+      · subst h2
+        have hes' : stillPs mark q fi 0 items = true := by simpa using hes
+        have := recSliceD_quiet mark items q fi s 0 {} hes' rfl rfl (by simp [hlen])
         simp [fieldRes, T.isNode, kids_erase, this]
-      · have := recPlain_quiet mark items q fi 0 hes
-        simp only [List.drop_zero] at this
-        simp [fieldRes, T.isNode, kids_erase, h1, hmd, eraseL_length, hlen, this]
+      · have hes' : stillEs mark q fi 0 items = true := by simpa [h2] using hes
+        replace hes := hes'
+        by_cases h1 : md = 1
+        · subst h1
+          have := recSlice_quiet mark items q fi s 0 {} hes rfl rfl (by simp [hlen])
+          simp [fieldRes, T.isNode, kids_erase, this]
+        · have := recPlain_quiet mark items q fi 0 hes
+          simp only [List.drop_zero] at this
+          simp [fieldRes, T.isNode, kids_erase, h1, h2, eraseL_length, hlen, this]
     rw [hres]; simp [seqR, preAll]
   | .node o k cs :: r, q, fi, h => by
     simp only [stillFs, Bool.and_eq_true] at h
@@ -148,6 +155,62 @@ theorem recSlice_quiet (mark : T) : ∀ (body : List T) (q : Path) (fi : Nat) (n
     simp only [Nat.lt_irrefl, if_false, hnot, decide_false, Bool.false_eq_true, elemRes, eraseL_getElem?, ← markAt_elem,
       hx, Nat.sub_self]
     rw [ih]; simp [preAll]
+theorem recSliceD_quiet (mark : T) : ∀ (body : List T) (q : Path) (fi : Nat) (ns : Option Nat) (i : Nat) (run : Run),
+    stillPs mark q fi i body = true → run.proc = 0 → run.skip = 0 →
+    i + body.length = (markAt mark (q ++ [fi])).kids.length →
+    recSliceGo mark (.fst 0 q) fi ns true i run (eraseL (markAt mark (q ++ [fi])).kids) body = ⟨[], false⟩
+  | [], q, fi, ns, i, run, _, _, _, hl => by
+    rw [recSliceGo_nil]; simp [eraseL_length]; simp at hl; omega
+  | .node (.tree l) k kv :: r, q, fi, ns, i, run, h, hp, hk, hl => by
+    simp only [stillPs, Bool.and_eq_true] at h
+    obtain ⟨⟨hin, hkv⟩, hr⟩ := h
+    have ih := recSliceD_quiet mark r q fi ns (i + 1) { proc := 0, skip := 0, lenRead := (markAt mark (q ++ [fi])).kids.length }
+      hr rfl rfl (by simp at hl ⊢; omega)
+    have hlt : i < (markAt mark (q ++ [fi])).kids.length := by simp at hl; omega
+    rw [recSliceGo_go _ _ _ _ _ _ _ _ _ _ (by omega)]
+    have hd : headState mark (.fst 0 q) fi ns i run (eraseL (markAt mark (q ++ [fi])).kids) (.node (.tree l) k kv) r
+        = ([], eraseL (markAt mark (q ++ [fi])).kids, { proc := 1, lenRead := (markAt mark (q ++ [fi])).kids.length }) := by
+      simp only [headState, hp, Nat.lt_irrefl, if_false]
+      rw [detect_none _ _ _ _ _ _ _ _ (sliceHead_inPlace mark q fi ns i l hin), eraseL_length]
+    rw [hd]
+    have hnot : ¬ (i ≥ (markAt mark (q ++ [fi])).kids.length) := by omega
+    -- the pair: key and value are silent
+    have hpair : recPair mark (.fst 0 (q ++ [fi, i])) (erase (markAt mark (q ++ [fi, i]))).kids kv = ⟨[], false⟩ := by
+      cases kv with
+      | nil => simp [stillKV] at hkv
+      | cons kk r1 =>
+        cases r1 with
+        | nil => simp [stillKV] at hkv
+        | cons vv r2 =>
+          cases r2 with
+          | cons _ _ => simp [stillKV] at hkv
+          | nil =>
+            simp only [stillKV, Bool.and_eq_true] at hkv
+            have h0 : (erase (markAt mark (q ++ [fi, i]))).kids.headD .nil = erase (markAt mark ((q ++ [fi, i]) ++ [0])) := by
+              have := headD_eraseL_drop (markAt mark (q ++ [fi, i])).kids 0
+              rw [List.drop_zero] at this
+              rw [kids_erase, this, markAt_snoc]
+            have h1 : (erase (markAt mark (q ++ [fi, i]))).kids.tail.headD .nil = erase (markAt mark ((q ++ [fi, i]) ++ [1])) := by
+              have := tail_eraseL_drop (markAt mark (q ++ [fi, i])).kids 0
+              rw [List.drop_zero] at this
+              rw [kids_erase, this, headD_eraseL_drop, markAt_snoc]
+            have hv := recNode_quiet mark vv (.fst 0 (q ++ [fi, i])) [1] _ hkv.2 (slot_mark mark _ (q ++ [fi, i]) [1] _ rfl)
+            rw [recPair_two]
+            simp only [h0, h1, hv]
+            by_cases hkn : kk.isNode = true
+            · simp only [hkn, if_true] at hkv
+              have hkq := recNode_quiet mark kk (.fst 0 (q ++ [fi, i])) [0] _ hkv.1 (slot_mark mark _ (q ++ [fi, i]) [0] _ rfl)
+              simp only [hkn, if_true, hkq, preAll, List.map_nil, List.append_nil, Bool.false_eq_true, if_false]
+            · simp only [hkn, Bool.false_eq_true, if_false, Bool.and_eq_true, Bool.not_eq_true'] at hkv
+              simp only [hkn, Bool.false_eq_true, if_false, erase_isNode, hkv.1.2, preAll, List.map_nil, List.append_nil]
+    simp only [Nat.lt_irrefl, if_false, hnot, decide_false, Bool.false_eq_true, elemRes, if_true, eraseL_getElem?, ← markAt_elem,
+      NP.ext, hpair, Nat.sub_self]
+    rw [ih]; simp [preAll]
+  | .node .new _ _ :: _, _, _, _, _, _, h, _, _, _ => by simp [stillPs] at h
+  | .node (.foreign _ _ _ _) _ _ :: _, _, _, _, _, _, h, _, _, _ => by simp [stillPs] at h
+  | .nil :: _, _, _, _, _, _, h, _, _, _ => by simp [stillPs] at h
+  | .prim _ :: _, _, _, _, _, _, h, _, _, _ => by simp [stillPs] at h
+  | .many _ _ _ :: _, _, _, _, _, _, h, _, _, _ => by simp [stillPs] at h
 end
 
 end Pfst.Reconcile
